@@ -7,7 +7,7 @@
 (* implementation returned what the specification computes, at every step. *)
 (* Several runs may be concatenated; a "reset" record starts a new one.    *)
 (***************************************************************************)
-EXTENDS KvDispatch, Json, IOUtils
+EXTENDS KvDispatch, PagerInv, Json, IOUtils
 
 Rec == ndJsonDeserialize(IOEnv.TRACE)
 
@@ -27,9 +27,13 @@ TReset ==
 \* a record that carries information for humans only
 TNote == Ev("note") /\ UNCHANGED kvVars
 
+\* page accounting projected from the real state at a transaction boundary
+TAcct == Ev("acct") /\ AcctOk(Rec[l]) /\ UNCHANGED kvVars
+
 TraceNext ==
   \/ TReset
   \/ TNote
+  \/ TAcct
   \/ /\ l <= Len(Rec) /\ l' = l + 1
      /\ Do(Rec[l])
 
